@@ -36,6 +36,7 @@ func (vc *VC) execInstrs(b *ssa.BasicBlock, st *State) {
 				l.key = vc.define(x.Name(), "Int", l.key)
 			}
 			vc.locs[x] = l
+			vc.noteGuarded(x, base, st)
 		case *ssa.IndexAddr:
 			vc.execIndexAddr(x, st)
 		case *ssa.UnOp:
@@ -54,6 +55,7 @@ func (vc *VC) execInstrs(b *ssa.BasicBlock, st *State) {
 					}
 				}
 			}
+			vc.guardAccess(x.Addr, true, st)
 			vc.store(st, l, vc.val(x.Val))
 		case *ssa.Field:
 			s := x.X.Type()
@@ -339,6 +341,7 @@ func (vc *VC) execUnOp(x *ssa.UnOp, st *State) {
 				vc.safety("nil", fmt.Sprintf("(not (= %s 0))", l.key), "nil dereference in load")
 			}
 		}
+		vc.guardAccess(x.X, false, st)
 		vc.setVal(x, vc.load(st, l))
 		vc.assumeRange(vc.vals[x], x.Type(), st, vc.reach[vc.curBlock])
 	case token.NOT:
@@ -1542,4 +1545,87 @@ func (vc *VC) chanOwner(ch ssa.Value) *SVal {
 		return nil
 	}
 	return &SVal{t: vc.val(fa.X), typ: fa.X.Type(), sort: "Int"}
+}
+
+// ---- lock discipline ('guarded Struct.field by lockfield') ----
+
+// noteGuarded remembers, for the address &x.f of a guarded field, the address of the mutex that guards it. Accesses
+// to an object allocated in the same function (not yet shared: constructors) are exempt.
+func (vc *VC) noteGuarded(x *ssa.FieldAddr, base *Loc, st *State) {
+	if len(vc.w.guards) == 0 || base.kind != lStruct {
+		return
+	}
+	// (the root of the access path &a.f.g... is an allocation of this function)
+	var root ssa.Value = x.X
+	for {
+		if fa, ok := root.(*ssa.FieldAddr); ok {
+			root = fa.X
+			continue
+		}
+		break
+	}
+	if _, fresh := root.(*ssa.Alloc); fresh {
+		return
+	}
+	named, ok := base.typ.(*types.Named)
+	if !ok || named.Obj().Pkg() == nil {
+		return
+	}
+	g := vc.w.guards[named.Obj().Pkg().Path()+"."+named.Obj().Name()+"."+fieldName(x)]
+	if g == nil {
+		return
+	}
+	// the lock may sit in an embedded struct: 'by flushableReader.lock'
+	curT, ref := base.typ, base.key
+	comps := strings.Split(g.Lock, ".")
+	for ci, comp := range comps {
+		stT, ok := isStruct(curT)
+		if !ok {
+			break
+		}
+		found := false
+		for i := 0; i < stT.NumFields(); i++ {
+			if stT.Field(i).Name() != comp {
+				continue
+			}
+			found = true
+			lt := stT.Field(i).Type()
+			if ci < len(comps)-1 {
+				ref = vc.embTerm(curT, i, ref)
+				curT = lt
+				break
+			}
+			var addr string
+			if _, isPtr := lt.Underlying().(*types.Pointer); isPtr {
+				hn, hs := vc.d.fieldHeap(curT, i)
+				addr = fmt.Sprintf("(select %s %s)", vc.heap(st, hn, hs), ref)
+			} else {
+				addr = vc.embTerm(curT, i, ref)
+			}
+			if vc.guardOf == nil {
+				vc.guardOf = map[ssa.Value]string{}
+			}
+			vc.guardOf[x] = addr
+			return
+		}
+		if !found {
+			break
+		}
+	}
+	vc.fail("contract: guarded %s.%s by %s: no such lock field", g.Struct, g.Field, g.Lock)
+}
+
+func (vc *VC) guardAccess(addr ssa.Value, write bool, st *State) {
+	a, ok := vc.guardOf[addr]
+	if !ok {
+		return
+	}
+	w := vc.heap(st, "GH.lkW", "(Array Int Bool)")
+	r := vc.heap(st, "GH.lkR", "(Array Int Int)")
+	fa := addr.(*ssa.FieldAddr)
+	if write {
+		vc.oblige("lock.guard", "", vc.reach[vc.curBlock], fmt.Sprintf("(select %s %s)", w, a), "write of guarded field "+fieldName(fa)+" with its lock held for writing")
+	} else {
+		vc.oblige("lock.guard", "", vc.reach[vc.curBlock], fmt.Sprintf("(or (select %s %s) (> (select %s %s) 0))", w, a, r, a), "read of guarded field "+fieldName(fa)+" with its lock held")
+	}
 }
